@@ -325,3 +325,50 @@ def sf_nanfree(eng, st, args, kw, node):
 
 BuiltinMixin.SPEC_FUNCS.update({"is_scalar_objective": sf_is_scalar_objective, "scalar_case": sf_scalar_case,
                                 "nanfree": sf_nanfree})
+
+
+def sf_has_key(eng, st, args, kw, node):
+    d, k = args
+    return _b(z3.BoolVal(eng.static_str(k) in d.items))
+
+
+BuiltinMixin.SPEC_FUNCS.update({"has_key": sf_has_key})
+
+
+def sf_lists_unchanged_except(eng, st, args, kw, node):
+    """every sequence that existed at entry, other than the listed ones, has the same length and elements"""
+    o = eng.old_state
+    if o is None:
+        raise Unsupported("lists_unchanged_except() outside a postcondition")
+    conj = []
+    for name in sorted(set(st.heap) | set(o.heap)):
+        if not (name == "len" or name.startswith("el_")):
+            continue
+        m1, m0 = st.heap.get(name), o.heap.get(name)
+        if m1 is None:
+            continue
+        if m0 is None:
+            m0 = z3.Const(name + "0", m1.sort())
+        if m0.get_id() == m1.get_id():
+            continue
+        x = z3.Int(eng.ctx.fresh_name("l"))
+        guard = z3.And(x >= 0, x < o.alloc, *[x != a.z for a in args])
+        conj.append(z3.ForAll([x], z3.Implies(guard, m0[x] == m1[x]), patterns=[m1[x]]))
+    return _b(z3.And(*conj) if conj else z3.BoolVal(True))
+
+
+def sf_Reported(eng, st, args, kw, node):
+    """Reported(task, a): cost is W(F(position)) in the user's sign, fitness is Fit of it"""
+    task, a = args
+    p = st.read_field(a, "position")
+    wf = weighted(eng, st, task, p)
+    return _b(z3.And(st.read_field(a, "cost").z == wf, st.read_field(a, "fitness").z == fit(eng, wf)))
+
+
+def sf_fixed_size(eng, st, args, kw, node):
+    """the optimizer class keeps exactly population_size agents (every class except the three variable-size ones)"""
+    return _b(_uf("fixed_size_class", z3.IntSort(), z3.BoolSort())(args[0].z))
+
+
+BuiltinMixin.SPEC_FUNCS.update({"lists_unchanged_except": sf_lists_unchanged_except, "Reported": sf_Reported,
+                                "fixed_size": sf_fixed_size})
